@@ -576,6 +576,15 @@ Theorem c19_adjusted_src_refines : forall c o code flags nparams info0 address o
 Proof. exact adjusted_src_refines. Qed.
 Print Assumptions c19_adjusted_src_refines.
 
+(* op_analysis.rs: operand evaluation (MemoryAddressInfo::try_from_operand: initial value, null-flag tests, default scale /
+   displacement, all arithmetic wrapping), the implicit stack access of {CALL, PUSH} / {POP, RETF, RETURN} (offset from rsp,
+   null flag) and the null flag of an ip-update target, compiled from the source; the decoder stays an input (dinstr) *)
+Theorem c19_analyze_dinstr_src_refines : forall di pc,
+  (forall v, get_register pc RSP_ID = Some v -> 0 <= v < two64) ->
+  analyze_dinstr_src di pc = analyze_dinstr di pc.
+Proof. exact analyze_dinstr_src_refines. Qed.
+Print Assumptions c19_analyze_dinstr_src_refines.
+
 (* the whole path from the raw records, for an arbitrary instruction analysis: c19_the_property and every other
    theorem about dump_pipeline / dump_adj is a theorem about what the correspondence run executes *)
 Theorem c19_dump_pipeline_src_refines : forall analysis arch pid e pc rs,
